@@ -114,7 +114,9 @@ class CholLinearOperator(RootLinearOperator):
         Returns the inverse of the CholLinearOperator.
         """
         Linv = self.root.inverse()  # this could be slow in some cases w/ structured lazies
-        return CholLinearOperator(TriangularLinearOperator(Linv, upper=not self.upper), upper=not self.upper)
+        # A = L L^T  =>  A^-1 = L^-T L^-1 = M M^T with M = L^-T (upper triangular): a root, not a Cholesky factor
+        # A = R^T R  =>  A^-1 = R^-1 R^-T = M M^T with M = R^-1
+        return RootLinearOperator(Linv if self.upper else Linv._transpose_nonbatch())
 
     def inv_quad(
         self: Float[LinearOperator, "*batch N N"],
